@@ -32,23 +32,26 @@ CHECK = {
              "geometryErr/topologyErr are reported. stage rings: enumerated ring-size configurations with 0/1/2-point "
              "rings x epsilon x allowConvex. distinct_nontrivial = distinct signatures (valid: shape list, log2 V, holes, "
              "outers, depth, epsilon class, perturbed; reuse: hash of the sequence; garbage: kind, log2 V, epsilon class; "
-             "rings: configuration) over cases where the library returned triangles and every oracle clause was decided."),
+             "rings: configuration; corpus: entry name) over cases where the library returned triangles and every oracle clause was decided."),
     "min_nontrivial": {"quick": 3000, "thorough": 20000},
     "exhaustive": {"quick": False, "thorough": False},
     "stages": [
         {"name": "valid", "variant": "asan", "harness": "c10_triangulate.cpp",
-         "cases": {"quick": 20000, "thorough": 300000},
-         "params": {"mode": "valid", "maxVerts": {"quick": 600, "thorough": 6000}},
+         "cases": {"quick": 20000, "thorough": 150000},
+         "params": {"mode": "valid", "maxVerts": {"quick": 600, "thorough": 3000}},
          "env": {"ASAN_OPTIONS": _ASAN}, "case_timeout": 120},
         {"name": "reuse", "variant": "asan", "harness": "c10_triangulate.cpp",
-         "cases": {"quick": 2000, "thorough": 30000},
-         "params": {"mode": "reuse", "maxVerts": {"quick": 400, "thorough": 3000}, "seqLen": {"quick": 10, "thorough": 20},
+         "cases": {"quick": 2000, "thorough": 10000},
+         "params": {"mode": "reuse", "maxVerts": {"quick": 400, "thorough": 2000}, "seqLen": {"quick": 10, "thorough": 16},
                     "minRing": 2},
          "env": {"ASAN_OPTIONS": _ASAN}, "case_timeout": 120},
         {"name": "garbage", "variant": "asan", "harness": "c10_triangulate.cpp",
-         "cases": {"quick": 12000, "thorough": 200000},
+         "cases": {"quick": 12000, "thorough": 120000},
          "params": {"mode": "garbage", "maxVerts": {"quick": 300, "thorough": 3000}, "minRing": 2},
          "env": {"ASAN_OPTIONS": _ASAN}, "case_timeout": 120},
+        {"name": "corpus", "variant": "asan", "harness": "c10_triangulate.cpp",
+         "cases": {"quick": 220, "thorough": 220},
+         "params": {"mode": "corpus"}, "env": {"ASAN_OPTIONS": _ASAN}, "case_timeout": 300},
         {"name": "rings", "variant": "asan", "harness": "c10_triangulate.cpp",
          "cases": {"quick": 72, "thorough": 72},
          "params": {"mode": "rings"}, "case_timeout": 60, "max_crashes": 40},
